@@ -176,9 +176,18 @@ impl Clause {
         // solvable would be false (and we just asserted that it is not)
         let conflict = decision_tracker.assigned_value(forbidden_solvable) == Some(true);
 
+        // A solvable that constrains its own package in a way it does not satisfy
+        // itself yields the unit clause (¬parent). There are no two distinct
+        // literals to watch, so it is handled as an assertion.
+        let watched_literals = if parent == forbidden_solvable {
+            None
+        } else {
+            Some([parent.negative(), forbidden_solvable.negative()])
+        };
+
         (
             Clause::Constrains(parent, forbidden_solvable, via),
-            Some([parent.negative(), forbidden_solvable.negative()]),
+            watched_literals,
             conflict,
         )
     }
